@@ -10,7 +10,7 @@ TECHNIQUE = "static analysis over type-checked MIR: single-snapshot-load dominan
 LEVEL_TEXT = """Static, all-paths decision of: (A1) each of Log::log/enabled/flush has exactly one ArcSwap::load site, outside any loop, and every access to the snapshot's fields (root, appender table, error handler) goes through that one guard; (A2) Logger holds one Arc<ArcSwap<snapshot>>, the snapshot owns tree and appender table, has no interior mutability of its own, its aggregate is built only in the constructor and the tree's mutator is called only from the constructor and itself; (A3) Handle::set_config builds a complete snapshot from the new config before the single store, which lies on every path to return; (A4) the delivery cone of Log::log (cut at dyn Append/Filter) acquires no lock, so a re-entrant set_config cannot self-deadlock; (A5) reloader control flow: in run the Err arm returns to the loop head and only Ok(None) leaves; in run_once set_config is dominated by the Ok edge of Format::parse and control-dependent on the text having changed, the unchanged-mtime/unchanged-text edges return Ok(Some(rate)) without reaching the handle, and the new rate is the parsed config's refresh_rate(). arc-swap's own guarantees, real interleavings and file-system timestamps are not decided."""
 LEVEL_NOTE = "Trusted: rustc MIR/callee resolution; arc-swap (atomic swap, guard keeps the old snapshot alive, store does not wait on readers); std fs timestamps."
 EXPLANATION = """Decided: A1 one snapshot per call, A2 immutable self-contained snapshot, A3 build-then-store, A4 no lock across delivery, A5 reloader loop and edges. Undecided: arc-swap internals, actual interleavings, file-system timestamp behaviour."""
-DECIDED = ["A1 single load dominating all snapshot accesses", "A2 snapshot immutability/ownership", "A3 complete build before single store", "A4 lock-free delivery", "A5 reloader control flow", "A6 the reloader is started with the text that was loaded and a modification time read right beside it"]
+DECIDED = ["A1 single load dominating all snapshot accesses", "A2 snapshot immutability/ownership", "A3 complete build before single store", "A4 lock-free delivery", "A5 reloader control flow", "A6 the reloader is started with the text that was loaded and a modification time read right beside it", "A7 changes detected through the path", "A8 remembered text is the text last read", "A9 whole-document parsers", "A10 the lossy build leaves no dangling reference (C13.V2 re-evaluated)"]
 UNDECIDED = ["arc-swap internals", "real interleavings", "file-system timestamps"]
 TRUSTED = ["rustc nightly MIR + Instance::try_resolve", "arc-swap", "std::fs metadata"]
 
